@@ -89,3 +89,58 @@ Proof.
   intros c enc dec dunders H flag ad default. rewrite c14_whether_shape.
   now apply (translated_whether_generic C14.Model.dn (C14.Model.has_own_attribute c) dunders enc dec).
 Qed.
+
+(** ** The hash decision block of [attrs().wrap] vs [C04.Model.decide] *)
+From Attrs Require C04.Model.
+
+Definition inj_h (h : C04.Model.harg) : pyv :=
+  match h with
+  | C04.Model.HN => PVNone | C04.Model.HT => PVTrue | C04.Model.HF => PVFalse
+  | C04.Model.HX => PVOther 0
+  end.
+
+(** The hash block as C04's [decide] has it, as a function of the resolved inputs. *)
+Definition hash_block_model (h : C04.Model.harg) (ad own eq exc frz cache : bool) : C04.Model.kind :=
+  let h := if C04.Model.harg_eqb h C04.Model.HN && ad && own then C04.Model.HF else h in
+  if C04.Model.harg_eqb h C04.Model.HX then C04.Model.Err C04.Model.ETypeError
+  else if C04.Model.harg_eqb h C04.Model.HF || (C04.Model.harg_eqb h C04.Model.HN && negb eq) || exc then
+    if cache then C04.Model.Err C04.Model.ETypeError else C04.Model.Untouched
+  else if C04.Model.harg_eqb h C04.Model.HT || (C04.Model.harg_eqb h C04.Model.HN && eq && frz) then
+    C04.Model.Generated
+  else if cache then C04.Model.Err C04.Model.ETypeError else C04.Model.Unhashable.
+
+Definition inj_kind (k : C04.Model.kind) : pres :=
+  match k with
+  | C04.Model.Generated => PAct "add_hash"
+  | C04.Model.Unhashable => PAct "make_unhashable"
+  | C04.Model.Untouched => PFellOff
+  | C04.Model.Err C04.Model.ETypeError => PRaise "TypeError"
+  | C04.Model.Err C04.Model.EValueError => PRaise "ValueError"
+  end.
+
+Lemma translated_hash_block : forall h ad own eq exc frz cache (has_own : string -> bool),
+  has_own "__hash__" = own ->
+  Gen.Decide.hash_block has_own (inj_h h) (injb ad) (injb eq) (injb exc) (injb frz) (injb cache) =
+  inj_kind (hash_block_model h ad own eq exc frz cache).
+Proof.
+  intros h ad own eq exc frz cache has_own H. unfold Gen.Decide.hash_block. rewrite H.
+  destruct h, ad, own, eq, exc, frz, cache; reflexivity.
+Qed.
+
+(** ... and that function is literally the hash part of [C04.Model.decide]. *)
+Lemma c04_decide_uses_hash_block : forall c eq_,
+  C04.Model.attrs_eq (C04.Model.c_cmp c) (C04.Model.c_eq c) = Some eq_ ->
+  C04.Model.decide c =
+  let k := hash_block_model (C04.Model.eff_hash c) (C04.Model.auto_detect c) (C04.Model.dict_has_hash c)
+             (C04.Model.eq_flag c eq_) (C04.Model.is_exc c) (C04.Model.is_frozen c) (C04.Model.c_cache c) in
+  match k with
+  | C04.Model.Err e => C04.Model.Err e
+  | _ => if C04.Model.init_generated c then k
+         else if C04.Model.c_cache c then C04.Model.Err C04.Model.ETypeError else k
+  end.
+Proof.
+  intros c eq_ H. unfold C04.Model.decide, C04.Model.hash_local, hash_block_model. rewrite H.
+  destruct (C04.Model.eff_hash c), (C04.Model.auto_detect c), (C04.Model.dict_has_hash c),
+    (C04.Model.eq_flag c eq_), (C04.Model.is_exc c), (C04.Model.is_frozen c), (C04.Model.c_cache c),
+    (C04.Model.init_generated c); reflexivity.
+Qed.
